@@ -119,6 +119,10 @@ def run (c : Config) : State → List In → List Out
   | _, [] => []
   | s, x :: xs => (step c s x).2 :: run c (step c s x).1 xs
 
+def runBroken (c : Config) : State → List In → List Out
+  | _, [] => []
+  | s, x :: xs => (stepBroken c s x).2 :: runBroken c (stepBroken c s x).1 xs
+
 /-- little-endian bits <-> number (driver only) -/
 def bitsToNat : List Bool → Nat
   | [] => 0
